@@ -187,6 +187,11 @@ def run(ctx):
     # negative control: the budget without rounding to whole words (DESIGN.md / recorder.go before the fix) breaks the bound
     vlib.model_check(ctx, "MC_Rfc8888.tla", vlib.cfg_variant(ctx, "MC_Rfc8888.cfg", {"MaxAdds": 2, "MaxBuilds": 1, "Even": "FALSE"}),
                      expect_violation="Invariant SizeBound is violated")
+    # what is handed out (a report) belongs to the consumer: Handout.tla, with the scratch-reuse policy as negative control;
+    # the harness re-reads every report at the end of its script (side trace, Trace_Handout)
+    vlib.model_check(ctx, "MC_Handout.tla", "MC_Handout.cfg", workers=2)
+    vlib.model_check(ctx, "MC_Handout.tla", "MC_Handout_neg_reuse.cfg", workers=2, expect_violation="Invariant Intact is violated",
+                     note="negative control: a reused scratch object changes what a consumer still holds")
     # (G) systematic: every behaviour of each family on the exported Recorder; a sample end to end through SenderInterceptor
     rec, icpt = [], []
     for name, consts in families(ctx.quick):
